@@ -152,6 +152,17 @@ def gen_cases(ctx):
         fn, t = [(f, t) for f, t in decl if t["name"] in p["elig_hint"]][0]
         other = [f["name"] for f in p["files"] if f["name"] != fn]
         add(p, ["-file=" + rng.choice(other), "-type=" + t["name"]], ["file+named-notin"])
+        # ---- hand-kept files that carry another tool's `// Code generated … DO NOT EDIT.` header are sources like any other ----
+        p = g.package(cmd, n_elig=3, foreign_header=True)
+        add(p, ["-type=*"], ["star", "foreign-generated-header"], directive="exact")
+        p = g.package(cmd, n_elig=3, foreign_header=True)
+        hf = [f["name"] for f in p["files"] if f.get("header")]
+        add(p, ["-file=" + hf[0]], ["file", "foreign-generated-header"])
+        p = g.package(cmd, n_elig=3, foreign_header=True)
+        hf = [f["name"] for f in p["files"] if f.get("header")]
+        add(p, ["-file=" + hf[0], "-sep"], ["file-sep", "foreign-generated-header"])
+        p = g.package(cmd, n_elig=3, foreign_header=True, colocate=True)
+        add(p, [sel_flag(rng, p["elig_hint"][:2])], ["named-two", "foreign-generated-header"])
         # ---- file names ending with the -file value ----
         for selx in ([], ["-sep"], ["-type=*"]):
             p = g.package(cmd, n_elig=4, nfiles=3, suffix_names=True)
@@ -230,7 +241,8 @@ def gen_cases(ctx):
         if rng.random() < 0.12:
             extra.append(rng.choice(["tparam-other-file", "tparam-same-file", "tparam-of-type-other-file", "embedded-earlier",
                                      "field-earlier", "method-earlier", "ifaceembed-earlier", "otherpkg-earlier"]))
-        p = g.package(cmd, extra=tuple(extra), colocate=rng.random() < 0.2, suffix_names=rng.random() < 0.15)
+        p = g.package(cmd, extra=tuple(extra), colocate=rng.random() < 0.2, suffix_names=rng.random() < 0.15,
+                      foreign_header=rng.random() < 0.15)
         el = p["elig_hint"]
         decl = declared_names(p)
         allnames = [t["name"] for _, t in decl]
